@@ -25,7 +25,7 @@ RULE = ("seeded spline spaces: degree 1-5 (1-D up to 10), 1-40 cells, uniform/ra
         "sum 0; periodic end equality; fast path vs general path.  A class is (path, degree, boundary, uniformity, entry "
         "point, derivative order, point kind) in which at least one value was compared with the reference.")
 ASSUMPTIONS = ["reference = de Boor recursion on control points + scipy BSpline (second opinion shares the recurrence family, not the code)",
-               "tolerance 200*eps*(p+1)*local coefficient scale (derivative: times 2p/min local knot span)",
+               "tolerance 200*eps*(p+1)*local coefficient scale*(1+p*max|x|/local cell size) (derivative: times 2p^2/min local knot span): rounding of sums plus cancellation in (x-knot)/(knot difference) of the input coordinates",
                "degree-1 derivative at a breakpoint may be either one-sided value (statement does not fix it)"]
 REQUIRED_EVENTS = {"values_compared": 1, "derivs_compared": 1, "values2d_compared": 1, "basis_points": 1, "fast_vs_general": 1}
 C = 200.0
@@ -70,6 +70,11 @@ def _local_scale(T, p, c, x, der):
     lo, hi = max(0, k - p - 1), min(n, k + 2)
     loc = np.abs(np.asarray(c)[lo:hi])
     s = float(loc.max()) if loc.size else 0.0
+    cells = [T[j + 1] - T[j] for j in range(max(0, lo), min(len(T) - 1, hi + p + 1)) if T[j + 1] - T[j] > 0]
+    hcell = min(cells) if cells else 1.0
+    # positions inside a cell are formed from absolute coordinates (x - knot)/(knot difference): the rounding
+    # of the INPUT contributes eps*|x|/h to the local coordinate, hence |x|/h * p to the relative error of the value
+    s = s * (1.0 + p * max(abs(x), abs(T[0]), abs(T[-1])) / hcell)
     if der:
         spans = [T[j + p] - T[j] for j in range(max(1, lo), min(len(T) - p, hi + 1)) if T[j + p] - T[j] > 0]
         hmin = min(spans) if spans else 1.0
@@ -183,7 +188,7 @@ def _case_1d(case, spl):
             return _viol(cls, ev, neval, "C07:basis-not-partition-of-unity", "%s: basis sums to %r at %s point x=%r" % (name, vals.sum(), kind, x), dict(wit0, x=x))
         if not (p == 1 and kind != "interior") and abs(ders.sum()) > C * rm.EPS * (p + 1) * 2 * p * p / hmin:
             return _viol(cls, ev, neval, "C07:basis-derivatives-do-not-sum-to-zero", "%s: basis derivatives sum to %r at x=%r" % (name, ders.sum(), x), dict(wit0, x=x))
-        if np.abs(vals - refB).max() > C * rm.EPS * (p + 1):
+        if np.abs(vals - refB).max() > C * rm.EPS * (p + 1) * (1 + p * max(abs(breaks[0]), abs(breaks[-1])) / hmin):
             j = int(np.abs(vals - refB).argmax())
             return _viol(cls, ev, neval, "C07:basis-value", "%s: BSplines[%d](%r) = %r, Cox-de Boor definition gives %r" % (name, j, x, vals[j], refB[j]), dict(wit0, x=x, j=j))
     # exact-rational cross-check of the float reference itself on small spaces (keeps the oracle honest)
@@ -231,7 +236,8 @@ def _case_2d(case, spl):
     for d1 in (0, 1):
         for d2 in (0, 1):
             ref = rm.spline2d_eval(T1, p1, T2, p2, Cf, x1, x2, d1, d2)
-            tol = C * rm.EPS * (p1 + 1) * (p2 + 1) * cmax * ((2 * p1 * p1 / h1) if d1 else 1) * ((2 * p2 * p2 / h2) if d2 else 1)
+            tol = C * rm.EPS * (p1 + 1) * (p2 + 1) * cmax * ((2 * p1 * p1 / h1) if d1 else 1) * ((2 * p2 * p2 / h2) if d2 else 1) \
+                * (1 + p1 * float(np.abs(T1).max()) / h1) * (1 + p2 * float(np.abs(T2).max()) / h2)
             got_grid = s.eval(x1.copy(), x2.copy(), d1, d2)
             got_vec = np.full((len(x1), len(x2)), np.nan)
             s.eval_vector(x1.copy(), x2.copy(), got_vec, d1, d2)
@@ -305,7 +311,7 @@ def _case_fastgen(case, spl):
         vg = sg.eval(xs.copy(), der)
         ev["fast_vs_general"] += len(xs)
         cls.add("%s/der%d" % (name, der))
-        tol = C * rm.EPS * 4 * scale * kappa * ((18.0 / (breaks[1] - breaks[0])) if der else 1.0)
+        tol = C * rm.EPS * 4 * scale * kappa * ((18.0 / (breaks[1] - breaks[0])) if der else 1.0) * (1 + 3 * max(abs(a), abs(b)) / (breaks[1] - breaks[0]))
         if not np.all(np.abs(vf - vg) <= tol):
             i = int(np.abs(vf - vg).argmax())
             return _viol(cls, ev, len(xs), "C07:fast-vs-general-%s" % ("periodic" if per else "clamped"),
